@@ -288,4 +288,6 @@ def fitted(rng, name, d=None, opts=None, train=None, **kw):
       if not name.startswith('SDML'):
         raise
       o['balance_param'] = o.get('balance_param', 0.5) / 4.0
+      if attempt >= 8:
+        o['prior'] = 'identity'      # (scikit-learn's graphical lasso gives up on ill-conditioned inputs: a well-conditioned prior)
   raise RuntimeError('could not obtain an SDML fit')
